@@ -645,6 +645,51 @@ pub fn mutate(s: &str, rng: &mut Rng, ev: Ev) -> String {
 // ---------------------------------------------------------------- W5 bombs
 
 /// Expressions stressing every looping construct with extreme arguments, and maximal nesting.
+/// Two-argument functions and binary operators over a grid of small indices (0..=70) against powers
+/// of 10, 2 and 3 and their neighbours - the mid-range combinations that fixed pools of extreme values
+/// skip (root(63,10^12), 3^40, 40!/38!): integer fast paths overflow there, not at the type limits.
+pub fn int_grid(ev: Ev) -> Vec<String> {
+    let mut bs: Vec<i128> = vec![];
+    let mut p: i128 = 1;
+    for _ in 0..19 {
+        bs.push(p);
+        p *= 10;
+    }
+    for k in 1..63 {
+        let v = 1i128 << k;
+        bs.extend([v, v - 1, v + 1]);
+    }
+    let mut t: i128 = 3;
+    for _ in 0..39 {
+        bs.push(t);
+        t *= 3;
+    }
+    bs.sort();
+    bs.dedup();
+    let mut forms: Vec<String> = vec!["{a}^{b}", "{b}^{a}", "{b}/{a}", "{b}*{a}", "{b}-{a}"].into_iter().map(String::from).collect();
+    if has_fact_mod(ev) {
+        forms.extend(["{b}%{a}", "{a}!/{b}"].into_iter().map(String::from));
+    }
+    if has_bitops(ev) {
+        forms.extend(["{b}<<{a}", "{b}>>{a}", "{a}<<{b}"].into_iter().map(String::from));
+    }
+    for f in [Func::Root, Func::Pow, Func::Log, Func::Mod, Func::Atan2, Func::ILog, Func::Gcd, Func::Lcm] {
+        if f.available(ev) {
+            forms.push(format!("{}({{a}},{{b}})", f.name()));
+            forms.push(format!("{}({{b}},{{a}})", f.name()));
+        }
+    }
+    let mut v = vec![];
+    for form in &forms {
+        for a in 0..=70 {
+            for b in &bs {
+                v.push(form.replace("{a}", &a.to_string()).replace("{b}", &b.to_string()));
+            }
+        }
+    }
+    v
+}
+
 pub fn bombs(ev: Ev) -> Vec<String> {
     let mut v: Vec<String> = vec![];
     let big: Vec<&str> = match ev {
